@@ -15,12 +15,16 @@ RULE = ("Exhaustive call sequences over 15 wrapper operations (accept, accept(su
         "(thorough <=5) x every server script (connect; 0-3 frames text/bytes/both-keys; disconnect at every position or never), plus "
         "length 5 (thorough 6) over a sample of scripts; plus every sequence of length <=3 (thorough 4) with each adjacent pair overlapped (call i suspended inside "
         "the server's send() while call i+1 runs to completion - two tasks sharing the socket). Non-trivial = sequence containing an accept or close and >=2 calls; distinct by construction.")
-RULE += " Also: empty text / binary frames, the websocket_session shortcut, a pending receive cancelled on a real event loop, the server's send() failing for the n-th forwarded event, `async for` over iter_text / iter_bytes left early and reading continued by another call (event loop; at most one server receive outstanding); 2-5 tasks waiting in a receive variant of one socket at once (each frame returned to exactly one of them, per-task arrival order)."
+RULE += " Also: empty text / binary frames, the websocket_session shortcut, a pending receive cancelled on a real event loop, the server's send() failing for the n-th forwarded event, `async for` over iter_text / iter_bytes left early and reading continued by another call (event loop; at most one server receive outstanding); 2-5 tasks waiting in a receive variant of one socket at once (each frame returned to exactly one of them, per-task arrival order). Empty frames are also SENT (the third call of every sequence)."
 ASSUMPTIONS = [
     "a typed receive that meets a frame of the other type (or the connect event) has an unspecified outcome (KeyError/None tolerated); the event counts as consumed",
     "a call that would wait for a server event that never comes ends the scenario (the coroutine is suspended, nothing is judged after it)",
     "sending after the *client's* disconnect is not judged (the statement's automaton is about the application side)",
 ]
+
+def _text(idx):
+    return "" if idx % 3 == 2 else f"s{idx}"  # an empty frame is a frame
+
 
 CALLS = ["raw_denial", "accept", "accept_sub", "receive", "receive_text", "receive_bytes", "iter_text", "iter_bytes", "send_text",
          "send_bytes", "close", "close_code", "raw_accept", "raw_send", "raw_close", "raw_bogus"]
@@ -145,9 +149,9 @@ def run_scenario(ctx, calls, script_tag, events, overlap=None, send_fail=None, e
                 gens[call] = getattr(ws, call)()
             coro = gens[call].__anext__()
         elif call == "send_text":
-            coro = ws.send_text(f"s{idx}")
+            coro = ws.send_text(_text(idx))
         elif call == "send_bytes":
-            coro = ws.send_bytes(b"s%d" % idx)
+            coro = ws.send_bytes(_text(idx).encode())
         elif call == "close":
             coro = ws.close()
         elif call == "close_code":
@@ -261,9 +265,9 @@ def run_scenario(ctx, calls, script_tag, events, overlap=None, send_fail=None, e
                         V(f"legal-call-forwarded-wrong|{call}", repr(new_fw))
                     else:
                         m = new_fw[0]
-                        if call == "send_text" and m.get("text") != f"s{idx}":
+                        if call == "send_text" and m.get("text") != _text(idx):
                             V("send_text-payload", repr(m))
-                        if call == "send_bytes" and m.get("bytes") != b"s%d" % idx:
+                        if call == "send_bytes" and m.get("bytes") != _text(idx).encode():
                             V("send_bytes-payload", repr(m))
                         if call == "accept_sub" and m.get("subprotocol") != "proto":
                             V("accept-subprotocol", repr(m))
